@@ -88,6 +88,14 @@ PROPS = {
   "rule": "the REAL binary: make-iso on generated trees (both modes, incl. unusable TITLE_ID) and decrypt redump/3k3y on generated encrypted images (valid and invalid tables, already-decrypted 3k3y) x output to a new path, to '-', to an existing file, to an existing directory; output bytes compared with the Lean model's image / plaintext and the crypto/aes reference; pre/post state of pre-existing targets; the decrypted output is then served from /PS3ISO and from /other and read back",
   "assumptions": ["TOCTOU window between the existence test and the open of the output file is outside the model", "kong's argument handling (existingdir, *os.File) is trusted"] + _CONN_ASSUME,
  },
+ "C19": {
+  "props_modules": ["Ps3.Props.C19"],
+  "needs_binary": True,
+  "streams": [{"name": "c19", "bad_obs": r"not-listening|dial-failed|starterr", "timeout_quick": 300, "timeout_thorough": 1500}],
+  "rule": "the REAL binary started in a fresh world (own HOME/XDG_CONFIG_HOME, own cwd, free ports): each of the 9 settings given through each of the 6 channels (flag, PS3NETSRV_* variable, --config file, PS3NETSRV_CONFIG_FILE file, ./config.ini, user config dir) alone, every ordered pair of channels with different values, malformed values in every channel (also overridden by a flag), random multi-setting mixes; the effective value is OBSERVED from behaviour (which port answers, which root is served, whether a write lands, whether a non-whitelisted client is dropped, the second-client limit, the idle cut, debug lines, JSON log shape, the debug server port) and compared with the Lean model `effective`",
+  "assumptions": ["KongSem: kong v1.8.1's Parse pipeline (Reset decodes env, command-line flags win, resolvers asked in order with the last one winning) is transcribed from its source, tied by this differential only",
+                  "values are abstracted to two valid tags and one malformed one per setting"],
+ },
  "C12": {
   "props_modules": ["Ps3.Props.C12"],
   "race_thorough": True,
@@ -164,6 +172,8 @@ LEVEL_TEXT = {
         "Tie: the full product of layouts (exhaustive in thorough) against an independent decision table.",
  "C20": "Theorems: a copy loop with any chunk sizes over a source whose reads are slices writes exactly that slice, hence make-iso output = the canonical image of C09 (the bytes the server announces and serves); decrypt output = h zero bytes ++ reference plaintext from h on (C10); a blanked watermark area is never recognised as 3k3y again (served back unchanged); the output-file decision never selects 'create' for an existing path and '-' is stdout. "
         "Tie: the real binary's files and stdout against the model and the crypto/aes reference, pre/post state of existing targets, served-back comparison.",
+ "C19": "Theorems over the Lean model of the configuration wiring (`effective`): a command-line flag wins over every file and variable; a value given in exactly one channel is the effective one; among files --config / PS3NETSRV_CONFIG_FILE > ./config.ini > user directory; a malformed value in the winning channel, or in the environment at all, stops start-up (never a silent fallback); one failing setting stops start-up. "
+        "Tie: the real binary's observable behaviour for all 9 settings x 6 channels against the model.",
  "C12": "Logic proved, runtime observed. Theorems on the multi-connection model: with writing off, for any number of connections and ANY interleaving of their requests, each connection's response stream equals its stream when served alone (induction over the schedule; a step of one connection never touches another's state and leaves the world fixed), hence independence of what others send; every connection starts from the empty state; the shared buffer pool never hands one buffer to two connections under any get/put interleaving. "
         "Tie: parallel sessions against the sequential prediction, race detector in thorough.",
  "C13": "Logic proved, runtime observed. Theorems: State.Close releases all three slots whatever they hold; every request keeps at most one handle per slot and a replaced handle is released (slot bookkeeping of OPEN_DIR/OPEN_FILE/CREATE/CLOSEFILE); the judgement predicate accepts the fault-free run, rejects altered bytes and hangs, and a closed connection admits nothing after it; enumeration always terminates (structural recursion over the remaining names). "
